@@ -1,8 +1,9 @@
 #!/bin/bash
 # seed_run.sh <patch.diff> <property>... : apply a seeded change to /repo, run the quick checks, undo it
 PATCH=$1; shift
-cd /verif
-export VERIF_EVIDENCE_DIR=/verif/.build/seed-evidence
-git -C /repo apply "$PATCH" || { echo "patch does not apply to /repo"; exit 2; }
+V=$(cd "$(dirname "$0")/.." && pwd); R=${VERIF_REPO:-/repo}
+cd "$V"
+export VERIF_EVIDENCE_DIR=$V/.build/seed-evidence
+git -C "$R" apply "$PATCH" || { echo "patch does not apply to /repo"; exit 2; }
 for p in "$@"; do ./check "$p" ${TIER:-quick} | grep -v '^$'; done
-git -C /repo checkout -- . && git -C /repo status --short
+git -C "$R" checkout -- . && git -C "$R" status --short
